@@ -198,15 +198,23 @@ pub fn generate(seed: u64, n: usize, _thorough: bool, _corpus: Option<&str>) -> 
     // fixed-size blocks with their OWN generators (independent of how much randomness the streams above consume)
     let mut rg = Rng::new(seed ^ 0x6a9d_0055_u64).fork();
     for k in 0..(if n >= 2000 { n / 16 } else { GAP_BLOCK }) { out.push(gap_doors(&mut rg, k)); }
+    // the TRUTH TABLES of every connective through the method / operator forms, twice (the receiver form - bare handle or
+    // expression - is drawn per probe): 12 connective shapes x 6 value pairs x 2
+    let mut rt = Rng::new(seed ^ 0x7ab1e_u64).fork();
+    for _rep in 0..2 { for kind in 0..12 { for pq in [[0.0, 1.0], [1.0, 0.0], [0.0, 0.0], [1.0, 1.0], [0.0, 2.0], [-1.0, 0.0]] {
+        if let Some(c) = eval_probe_with(&mut rt, Some((kind, pq))) { out.push(c); } } } }
     out
 }
 
 /// `BuilderSolution::eval` at a CHOSEN point: variables are pinned by `v = c` rows, then an arbitrary
 /// expression is evaluated at the solution and compared bit-exactly with the Lean `evalExpr`.
-fn eval_probe(r: &mut Rng) -> Option<Case> {
+fn eval_probe(r: &mut Rng) -> Option<Case> { eval_probe_with(r, None) }
+
+/// `fixed = Some((kind, [p, q]))`: the connective `kind` applied to the handles of `p` and `q` at exactly these values
+fn eval_probe_with(r: &mut Rng, fixed: Option<(usize, [f64; 2])>) -> Option<Case> {
     let names: Vec<String> = ["p", "q", "s"].iter().map(|x| x.to_string()).collect();
     let ds: Vec<VarDecl> = names.iter().map(|n| VarDecl { name: n.clone(), ty: VariableType::IntegerRange(-4, 4) }).collect();
-    let vals: Vec<f64> = if r.chance(1, 2) { (0..3).map(|_| *r.pick(&[0.0, 1.0, 0.0, 1.0, 2.0, -1.0])).collect() } else { (0..3).map(|_| r.range(-4, 4) as f64).collect() };
+    let vals: Vec<f64> = if let Some((_, pq)) = fixed { vec![pq[0], pq[1], 1.0] } else if r.chance(1, 2) { (0..3).map(|_| *r.pick(&[0.0, 1.0, 0.0, 1.0, 2.0, -1.0])).collect() } else { (0..3).map(|_| r.range(-4, 4) as f64).collect() };
     let mut b = ModelBuilder::new();
     let mut handles = IndexMap::new();
     for d in &ds { handles.insert(d.name.clone(), b.add_var(d.name.clone(), d.ty)); }
@@ -217,8 +225,15 @@ fn eval_probe(r: &mut Rng) -> Option<Case> {
     let sol = b.solve_with(Auto).ok()?;
     let cfg = ModelCfg { max_vars: 3, depth: 3, logic: true, piecewise: true, unbounded: false, fractional: true, strict_cmp: false, hostile: false };
     // numeric and logic operators over ALL variables (truthiness of non-0/1 values included: eval_expr is total)
-    let connective = r.chance(1, 3);
-    let e = if connective {
+    let connective = fixed.is_some() || r.chance(1, 3);
+    let e = if let Some((kind, _)) = fixed {
+        let (p, q) = (Box::new(Exp::Variable("p".into())), Box::new(Exp::Variable("q".into())));
+        match kind {
+            0 => Exp::Iff(p, q), 1 => Exp::Implies(p, q), 2 => Exp::Xor(p, q), 3 => Exp::BinOp(BinOp::And, p, q), 4 => Exp::BinOp(BinOp::Or, p, q),
+            5 => Exp::BinOp(BinOp::Iff, p, q), 6 => Exp::BinOp(BinOp::Implies, p, q), 7 => Exp::BinOp(BinOp::Xor, p, q),
+            8 => Exp::Not(p), 9 => Exp::UnOp(UnOp::Neg, p), 10 => Exp::Iff(q, p), _ => Exp::Implies(q, p),
+        }
+    } else if connective {
         // one connective applied to variable handles directly (the METHOD / operator forms with a bare `Var` receiver), possibly
         // under one more operator; the values below include the rows of the truth table where the connectives differ
         let v = |r: &mut Rng| Box::new(Exp::Variable(r.pick(&names).clone()));
@@ -237,6 +252,7 @@ fn eval_probe(r: &mut Rng) -> Option<Case> {
     c.show = format!("solution.eval({}) at {:?}", e, vals);
     c.tags = vec!["eval-probe".into()];
     if connective { c.tags.push("eval-probe-connective".into()); }
+    if fixed.is_some() { c.tags.push("eval-probe-truth-table".into()); }
     c.nontrivial = true;
     Some(c)
 }
@@ -1064,25 +1080,18 @@ fn data_doors(r: &mut Rng) -> Case {
 // RELATIVE to the objective (large base values + small bonuses, a cardinality limit, pairwise conflicts: a fractional root
 // LP, so that an early incumbent is not optimal).
 
-const GAP_BLOCK: usize = 120;
+const GAP_BLOCK: usize = 32;
 
-fn gap_doors(r: &mut Rng, k_index: usize) -> Case {
-    use rooc::Microlp;
+struct GapInst { family: usize, n: usize, values: Vec<f64>, k: usize, conflicts: Vec<(usize, usize)>, weights: Vec<i64>, wcap: i64 }
+
+fn gap_instance(r: &mut Rng, family: usize) -> GapInst {
     // families (rotating): 0 = the five-item shape (cardinality 3, conflict triangle 0-2-4), 1 = 6-8 items, triangle + pairs,
     // 2 = a weight row instead of the cardinality row (knapsack), 3 = two triangles
-    let family = k_index % 4;
     let n = match family { 0 => 5, 1 => 6 + r.below(3), 2 => 5 + r.below(3), _ => 7 + r.below(2) };
     let base = *r.pick(&[1000000.0, 2000000.0, 5000000.0, 10000000.0]);
     // small DISTINCT bonuses
     let mut bonus: Vec<i64> = vec![];
     while bonus.len() < n { let b = r.range(1, 40); if !bonus.contains(&b) { bonus.push(b); } }
-    // the member of a conflict triangle that the optimum needs is the FIRST one: microlp's depth-first search takes the
-    // branch that excludes the first fractional variable first, so its first incumbent uses another member of the triangle -
-    // non-optimal, but within 1e-4 of the bound when the base value dwarfs the bonuses
-    if r.chance(5, 6) {
-        let m = *[bonus[0], bonus[2], bonus[4]].iter().max().unwrap(); let at = bonus.iter().position(|b| *b == m).unwrap(); bonus.swap(0, at);
-        if family == 3 { let m = *[bonus[1], bonus[3], bonus[5]].iter().max().unwrap(); let at = bonus.iter().position(|b| *b == m).unwrap(); bonus.swap(1, at); }
-    }
     let values: Vec<f64> = bonus.iter().map(|b| base + *b as f64).collect();
     let k = match family { 0 => 3, _ => 2 + r.below(n - 3) };
     let mut conflicts: Vec<(usize, usize)> = vec![(0, 2), (0, 4), (2, 4)];
@@ -1090,15 +1099,37 @@ fn gap_doors(r: &mut Rng, k_index: usize) -> Case {
     if family != 0 { for _ in 0..r.below(3) { let a = r.below(n); let b = r.below(n); if a != b && !conflicts.contains(&(a.min(b), a.max(b))) { conflicts.push((a.min(b), a.max(b))); } } }
     let weights: Vec<i64> = (0..n).map(|_| r.range(2, 5)).collect();
     let wcap = weights.iter().sum::<i64>() / 2;
-    let build = || -> (ModelBuilder, Vec<Var>) {
-        let mut b = ModelBuilder::new();
-        let x = b.add_vars("x", n, VariableType::Boolean);
-        let mut b = b.maximize(rooc::builder::sum(x.iter().zip(&values).map(|(xi, v)| *v * *xi)));
-        if family == 2 { b = b.with(BuilderConstraint::new(rooc::builder::sum(x.iter().zip(&weights).map(|(v, w)| (*w as f64) * *v)), Comparison::LessOrEqual, Expr::from(wcap as f64), "card".into())); }
-        else { b = b.with(BuilderConstraint::new(rooc::builder::sum(x.iter().map(|v| Expr::from(*v))), Comparison::LessOrEqual, Expr::from(k as f64), "card".into())); }
-        for (a, c) in &conflicts { b = b.with(BuilderConstraint::new(x[*a] + x[*c], Comparison::LessOrEqual, Expr::from(1.0), String::new())); }
-        (b, x)
-    };
+    GapInst { family, n, values, k, conflicts, weights, wcap }
+}
+
+fn gap_build(g: &GapInst) -> (ModelBuilder, Vec<Var>) {
+    let mut b = ModelBuilder::new();
+    let x = b.add_vars("x", g.n, VariableType::Boolean);
+    let mut b = b.maximize(rooc::builder::sum(x.iter().zip(&g.values).map(|(xi, v)| *v * *xi)));
+    if g.family == 2 { b = b.with(BuilderConstraint::new(rooc::builder::sum(x.iter().zip(&g.weights).map(|(v, w)| (*w as f64) * *v)), Comparison::LessOrEqual, Expr::from(g.wcap as f64), "card".into())); }
+    else { b = b.with(BuilderConstraint::new(rooc::builder::sum(x.iter().map(|v| Expr::from(*v))), Comparison::LessOrEqual, Expr::from(g.k as f64), "card".into())); }
+    for (a, c) in &g.conflicts { b = b.with(BuilderConstraint::new(x[*a] + x[*c], Comparison::LessOrEqual, Expr::from(1.0), String::new())); }
+    (b, x)
+}
+
+fn gap_doors(r: &mut Rng, k_index: usize) -> Case {
+    use rooc::Microlp;
+    // GAP-SENSITIVE instances by construction: a candidate is kept only if microlp with an EXPLICIT relative gap of 1e-4
+    // (`with_mip_gap(1e-4)`, a legitimate setting on the unchanged code) stops at an incumbent that is NOT the optimum the exact
+    // search proves - i.e. the 1e-4 gap provably admits a non-optimal solution that microlp's search order returns first.
+    // A wrapper that silently applies such a gap by default is then caught on every one of them.
+    let family = k_index % 4;
+    let solve = |g: &GapInst, gap: f64| -> Option<f64> { std::panic::catch_unwind(std::panic::AssertUnwindSafe(|| gap_build(g).0.solve_with(Microlp::new().with_mip_gap(gap)).ok().map(|s| s.value()))).ok().flatten() };
+    let mut g = gap_instance(r, family);
+    let mut sensitive = false;
+    for _ in 0..80 {
+        if let (Some(a), Some(b)) = (solve(&g, 1e-4), solve(&g, 0.0)) { if (a - b).abs() > 0.5 { sensitive = true; break; } }
+        let f2 = if family == 2 && r.chance(1, 2) { 0 } else { family };
+        g = gap_instance(r, f2);
+    }
+    let (family, n, k) = (g.family, g.n, g.k);
+    let (values, conflicts, weights, wcap) = (g.values.clone(), g.conflicts.clone(), g.weights.clone(), g.wcap);
+    let build = || gap_build(&g);
     let text = format!("max {}\ns.t.\n    card: {} <= {}\n{}define\n    {} as Boolean",
         (0..n).map(|i| format!("{} * x_{}", values[i] as i64, i)).collect::<Vec<_>>().join(" + "),
         if family == 2 { (0..n).map(|i| format!("{} * x_{}", weights[i], i)).collect::<Vec<_>>().join(" + ") } else { (0..n).map(|i| format!("x_{}", i)).collect::<Vec<_>>().join(" + ") }, if family == 2 { wcap as usize } else { k },
@@ -1119,6 +1150,7 @@ fn gap_doors(r: &mut Rng, k_index: usize) -> Case {
     c.show = text.replace('\n', " ; ");
     c.imp = format!("(gap-doors (microlp-default {:?}) (microlp-gap0 {:?}) (auto {:?}) (text-milp {:?}))", o_default, o_exact, o_auto, o_text);
     c.tags = vec!["gap-doors".into(), format!("gap-family-{}", family)];
+    if sensitive { c.tags.push("gap-sensitive".into()); }
     c.nontrivial = o_default.is_ok();
     let all = [&o_default, &o_exact, &o_auto, &o_text];
     match &o_text {
